@@ -750,6 +750,29 @@ class Sim:
                 if os.path.exists(pth):
                     os.remove(pth)
             h.probe("device_restored")
+        ro = scn.get("mesh_reoriented")
+        if ro and self.mesh_from is None:
+            # a mesh whose edge list is not in (low, high) orientation - legal for the public Mesh / EdgeMesh
+            # constructors and for files written by other tools: some edges are stored as (end, start) with
+            # the opposite direction vector; everything else is the same mesh
+            import random as _random
+
+            from tdgl.finite_volume.edge_mesh import EdgeMesh as _EdgeMesh
+            from tdgl.finite_volume.mesh import Mesh as _Mesh
+
+            m_ = device.mesh
+            em_ = m_.edge_mesh
+            rng_ = _random.Random(int(ro.get("seed", 0)))
+            flip = np.array([rng_.random() < ro.get("frac", 0.3) for _ in range(len(em_.edges))], dtype=bool)
+            edges_ = np.array(em_.edges, copy=True)
+            dirs_ = np.array(em_.directions, copy=True)
+            edges_[flip] = edges_[flip][:, ::-1]
+            dirs_[flip] = -dirs_[flip]
+            em2 = _EdgeMesh(np.array(em_.centers, copy=True), edges_, np.array(em_.boundary_edge_indices, copy=True), dirs_, np.array(em_.edge_lengths, copy=True), np.array(em_.dual_edge_lengths, copy=True))
+            m2 = _Mesh(np.array(m_.sites, copy=True), np.array(m_.elements, copy=True), np.array(m_.boundary_indices, copy=True), areas=np.array(m_.areas, copy=True), dual_sites=np.array(m_.dual_sites, copy=True), edge_mesh=em2, voronoi_polygons=m_.voronoi_polygons)
+            device = device.copy(with_mesh=True)
+            device.mesh = m2
+            h.probe("mesh_reoriented")
         dd = scn.get("device_derived")
         if dd:
             # device life cycle: the run uses a Device derived from the meshed one (a copy, a deep copy, a
